@@ -67,7 +67,7 @@ Section AttestProofs.
   Lemma vote_inv : forall st o c, inv st -> inv (fst (vote st o c)).
   Proof.
     intros st o c I. unfold M_AttestExec.vote.
-    destruct (negb (nonce c =? lastof o (last_by C st) + 1)); [exact I|].
+    destruct (negb (nonce c =? last_nonce C st o + 1)); [exact I|].
     fold (landed st c). destruct (landed_ok st c I) as (A & N & K).
     cbn [fst atts]. intros a Ha. apply put_in in Ha as [->|Ha]; [|apply I; exact Ha].
     intros o' c' Hv. cbn [a_votes a_nonce a_key] in *.
@@ -94,7 +94,7 @@ Section AttestProofs.
               forall o' c', In (o', c') (a_votes C a) -> nonce c' = nonce e /\ key c' = key e.
   Proof.
     intros st o c st' e I H. unfold M_AttestExec.vote in H.
-    destruct (negb (nonce c =? lastof o (last_by C st) + 1)); [discriminate H|].
+    destruct (negb (nonce c =? last_nonce C st o + 1)); [discriminate H|].
     fold (landed st c) in H. destruct (landed_ok st c I) as (A & N & K).
     set (vs := a_votes C (landed st c) ++ [(o, c)]) in *.
     destruct (negb (a_observed C (landed st c)) && (nonce c =? last_observed C st + 1) && tally C power required 0 vs) eqn:F;
@@ -139,7 +139,7 @@ Section AttestProofs.
   Lemma vote_valid : forall st o c, inv st -> votes_valid st -> valid c -> votes_valid (fst (vote st o c)).
   Proof.
     intros st o c I V Vc. unfold M_AttestExec.vote.
-    destruct (negb (nonce c =? lastof o (last_by C st) + 1)); [exact V|].
+    destruct (negb (nonce c =? last_nonce C st o + 1)); [exact V|].
     fold (landed st c). cbn [fst atts]. intros a Ha o' c' Hv.
     apply put_in in Ha as [->|Ha]; [|eapply V; eauto].
     cbn [a_votes] in Hv. apply in_app_or in Hv as [Hv|[Hv|[]]].
@@ -212,8 +212,8 @@ Section Collision.
       (mkSt C [mkAtt C 1 (key c1) c1 [(1, c1); (2, c2)] true] 1 [(2, 1); (1, 1)],
        [Voted; Executed c2]).
   Proof.
-    cbn [run]. unfold vote at 1. cbn [init last_by lastof]. rewrite N1. cbn.
-    unfold vote. cbn [last_by lastof]. rewrite N2. cbn. rewrite <- K, bytes_eqb_refl. cbn.
+    cbn [run]. unfold vote at 1. unfold last_nonce. cbn [init last_by lastof last_observed]. rewrite N1. cbn.
+    unfold vote. unfold last_nonce. cbn [last_by lastof last_observed]. rewrite N2. cbn. rewrite <- K, bytes_eqb_refl. cbn.
     rewrite bytes_eqb_refl. reflexivity.
   Qed.
 End Collision.
